@@ -647,4 +647,37 @@ def permNodes (p : Fin 3 → Fin 3) (nodes : List (QNode α)) : List (QNode α) 
 
 end orientation
 
+/-! ### `StrainEnergy.compute` on an (n × 3) array of semi-axes
+`compute(r)`: `r = np.atleast_2d(r); energies = [self.description.computeStrainEnergy(ri) for ri in r]` — the list of
+the single-row energies in the order of the rows: no row reads another row or an earlier result.  `f` is the single-row
+energy (`computeOf … h` in the history model, any of the description formulas).  `computeRowsReuse` is a VARIANT that is
+not the code (kept for the negative witness `Props.C16.computeRowsReuse_witness`): the loop remembers the previous row and
+its energy and hands the remembered energy to a row that `same` declares to have the same axis ratios. -/
+section rows
+variable {α : Type}
+
+/-- the array call: one single-row energy per row, in row order -/
+def computeRows (f : V3 α → α) (rows : List (V3 α)) : List α := rows.map f
+
+/-- `xs[idx]` (NumPy fancy indexing by a list of row numbers; `d` for a row number out of range) -/
+def takeRows {β : Type} (d : β) (xs : List β) (idx : List Nat) : List β := idx.map fun i => xs.getD i d
+
+/-- the reuse-previous-row loop, started with the remembered (row, energy) pair `prev` -/
+def computeRowsReuseFrom (same : V3 α → V3 α → Bool) (f : V3 α → α) :
+    Option (V3 α × α) → List (V3 α) → List α
+  | _, [] => []
+  | none, r :: rs => f r :: computeRowsReuseFrom same f (some (r, f r)) rs
+  | some (p, e), r :: rs =>
+    (if same p r then e else f r) :: computeRowsReuseFrom same f (some (r, if same p r then e else f r)) rs
+
+/-- the reuse-previous-row variant of the array call -/
+def computeRowsReuse (same : V3 α → V3 α → Bool) (f : V3 α → α) (rows : List (V3 α)) : List α :=
+  computeRowsReuseFrom same f none rows
+
+/-- "same axis ratios" exactly: r/r₀ = p/p₀ cross-multiplied -/
+def sameRatios [Mul α] [DecidableEq α] (p r : V3 α) : Bool :=
+  decide (r 1 * p 0 = p 1 * r 0) && decide (r 2 * p 0 = p 2 * r 0)
+
+end rows
+
 end KawinV.Elastic
